@@ -80,15 +80,18 @@ theorem index_spec (pick : Pick) (chunks : List (List Byte)) :
 
 /-- `preIndex` of a whole text with the line buffer replaced by its bytewise specification (structural
 recursion only, so that concrete instances can be evaluated by the kernel) -/
+def preOf (o : Option Inner) (f : Inner → Pre) : Pre :=
+  match o with
+  | none => .panic
+  | some i => f i
+
 def preIndexSpec (pick : Pick) (text : List Byte) : Pre :=
   let r := LB.bytewise LB.St.init text
-  match processLog Inner.init r.2 with
-  | none => .panic
-  | some i => (Creator.mk r.1 i).pre pick
+  preOf (processLog Inner.init r.2) fun i => (Creator.mk r.1 i).pre pick
 
 theorem preIndex_eq_spec (pick : Pick) (text : List Byte) :
     preIndex pick [text] = preIndexSpec pick text := by
-  unfold preIndex preIndexSpec
+  unfold preIndex preIndexSpec preOf
   rw [consumeAll_eq _ _ LB.inv_init, lb_consumeAll_single]
   simp only [Creator.init]
   rw [LB.consume_eq_bytewise _ _ LB.inv_init]
